@@ -655,3 +655,189 @@ def instance_state(L, repo, rule, modname, clsname, what):
                  "created in __init__", "class-level `%s`: one object shared by every instance" % canon(st)[:60] if not own else "replaced in __init__", own, st.lineno)
     L.floor(rule, "containers of %s mutated in place" % clsname, n, 1)
     return n
+
+
+# ---------------------------------------------------------------- who may change the negotiated header version
+
+def hdr_ver_ownership(L, repo, rule):
+    """The TRXD header version of a DATA interface is NEGOTIATED: it starts at the constructor's value and afterwards
+    changes only when the peer asks for it with SETFORMAT.  Decided in two parts: (a) who-may-write over the whole
+    toolkit - every store to `._hdr_ver` and every call of a method that stores it (set_hdr_ver and, transitively,
+    new setters) executes on behalf of DATAInterface.__init__ / the setter itself / the TRXC command handler
+    CTRLInterfaceTRX.parse_cmd; (b) inside the command handler the version is touched for no verb but SETFORMAT:
+    the handler is folded for every other documented command with the interface on version 1 and must leave it
+    there.  A power event, a tick or a data path that resets or copies the version makes bursts leave in a format the
+    recipient did not negotiate and silently undoes an acknowledged SETFORMAT."""
+    import ast as _ast, json as _json, os as _os
+    from pyfront import canon, qualname
+    from report import AnalysisError
+    ATTR = "_hdr_ver"
+    dci = repo.need_class("data_if", "DATAInterface")
+    setters = set()
+    for nm, m in dci.methods.items():
+        if nm != "__init__" and any(isinstance(x, _ast.Attribute) and x.attr == ATTR and isinstance(x.ctx, (_ast.Store, _ast.Del))
+                                    for x in _ast.walk(m)):
+            setters.add(nm)
+    if "set_hdr_ver" not in setters:
+        raise AnalysisError("DATAInterface.set_hdr_ver no longer stores %s: the ownership rule has lost its anchor" % ATTR)
+    allowed = {"DATAInterface.__init__", "CTRLInterfaceTRX.parse_cmd"} | {"DATAInterface." + s for s in setters}
+    n = 0
+    for m2 in repo.tk_modules():
+        for x in _ast.walk(m2.tree):
+            what = None
+            if isinstance(x, _ast.Attribute) and x.attr == ATTR and isinstance(x.ctx, (_ast.Store, _ast.Del)):
+                what = "store to %s" % canon(x)
+            elif isinstance(x, _ast.Call) and isinstance(x.func, _ast.Attribute) and x.func.attr in setters:
+                what = "call %s(..)" % canon(x.func)
+            elif isinstance(x, _ast.Call) and isinstance(x.func, _ast.Name) and x.func.id in ("setattr", "delattr") and len(x.args) >= 2 \
+                    and isinstance(x.args[1], _ast.Constant) and x.args[1].value == ATTR:
+                what = "setattr(.., %r, ..)" % ATTR
+            if what is None:
+                continue
+            n += 1
+            who = owners(m2, x)
+            L.ob(rule, m2.rel, qualname(x), "the negotiated header version changes only in the constructor, its setter and the "
+                 "SETFORMAT handler: %s" % what, "on behalf of " + ", ".join(sorted(allowed)), sorted(who), who <= allowed,
+                 getattr(x, "lineno", None))
+    L.floor(rule, "stores / setter calls of the header version", n, 3)
+    # (b) per-verb fold of the common command handler
+    from cmdfold import fold_parse_cmd
+    VERIF_ = _os.path.dirname(_os.path.dirname(_os.path.abspath(__file__)))
+    spec = _json.load(open(_os.path.join(VERIF_, "spec", "trxc.json")))
+    folded = 0
+    for verb, d in sorted(spec["verbs"].items()):
+        if verb == "SETFORMAT":
+            continue
+        argcs = d.get("argc") or [d.get("min", 0)]
+        for argc in argcs[:2]:
+            try:
+                f = fold_parse_cmd(repo, [verb] + ["1"] * argc, hdr_ver=1)
+            except AnalysisError:
+                continue
+            folded += 1
+            touched = [c_ for c_ in f.calls if c_[0] in setters]
+            L.ob(rule, rel("ctrl_if_trx"), "CTRLInterfaceTRX.parse_cmd",
+                 "CMD %s with %d argument(s) leaves the negotiated header version alone" % (verb, argc),
+                 "version 1 before and after, no setter call", (getattr(f, "hdr_ver", None), [c_[:2] for c_ in touched]),
+                 getattr(f, "hdr_ver", 1) == 1 and not touched)
+    L.floor(rule, "commands other than SETFORMAT folded for the header version", folded, 8)
+
+
+# ---------------------------------------------------------------- lock order: no join of a thread under a lock it takes
+
+def _name_callgraph(repo):
+    """Name-resolved call graph of the toolkit: `f(..)` -> the module-level function f of the same module;
+    `<recv>.m(..)` -> every toolkit method named m (callable attributes such as `self.clck_handler(..)` resolve the same
+    way: to the methods of that name that may have been stored there).  Over-approximates the callees."""
+    import ast as _ast
+    funcs, by_name = {}, {}
+    for m in repo.tk_modules():
+        for x in _ast.walk(m.tree):
+            if isinstance(x, _ast.FunctionDef):
+                par = getattr(x, "_parent", None)
+                cls = par.name if isinstance(par, _ast.ClassDef) else None
+                key = (m.name, cls, x.name)
+                funcs[key] = (m, x)
+                by_name.setdefault(x.name, []).append(key)
+
+    def callees(node, modname):
+        out = set()
+        for c in _ast.walk(node):
+            if not isinstance(c, _ast.Call):
+                continue
+            f = c.func
+            if isinstance(f, _ast.Name):
+                out |= {k for k in by_name.get(f.id, []) if k[1] is None}
+                # a class being instantiated runs its constructor
+                for k in by_name.get("__init__", []):
+                    if k[1] == f.id:
+                        out.add(k)
+            elif isinstance(f, _ast.Attribute):
+                out |= {k for k in by_name.get(f.attr, []) if k[1] is not None}
+        return out
+    return funcs, callees
+
+
+def lock_join_order(L, repo, rule):
+    """A thread must not be joined while a lock is held that the joined thread's own code acquires: if the thread is
+    waiting for that lock at this moment, neither side ever continues (the command that triggered the join - POWEROFF
+    stopping the clock generator - is never answered and the generator thread never ends).  Decided on the
+    name-resolved call graph: for every `with <lock attribute>` region of the toolkit, the functions reachable from the
+    region's body; for every `threading.Thread(target = T)`, the functions reachable from T and the lock attributes
+    they take; a `<thread attr>.join()` reachable from a region whose lock the thread's code takes is reported."""
+    import ast as _ast
+    from pyfront import canon, qualname
+    funcs, callees = _name_callgraph(repo)
+
+    def reach(start_nodes, modname):
+        seen, work = set(), []
+        for nd in start_nodes:
+            work.extend(callees(nd, modname))
+        while work:
+            k = work.pop()
+            if k in seen:
+                continue
+            seen.add(k)
+            m_, fd_ = funcs[k]
+            work.extend(callees(fd_, m_.name))
+        return seen
+
+    def lock_attr(expr):
+        # `self._tx_queue_lock` / `trx._tx_queue_lock`: identified by the attribute name
+        return expr.attr if isinstance(expr, _ast.Attribute) else None
+    # lock attributes: assigned from threading.Lock() / RLock()
+    locks = set()
+    threads = []            # (mod, Thread(...) call, target expr)
+    for m in repo.tk_modules():
+        for x in _ast.walk(m.tree):
+            if isinstance(x, _ast.Assign) and isinstance(x.value, _ast.Call):
+                cn = canon(x.value.func)
+                if cn.split(".")[-1] in ("Lock", "RLock"):
+                    for t in x.targets:
+                        if isinstance(t, _ast.Attribute):
+                            locks.add(t.attr)
+                if cn.split(".")[-1] == "Thread":
+                    tgt = next((k.value for k in x.value.keywords if k.arg == "target"), None)
+                    threads.append((m, x, tgt))
+    L.floor(rule, "lock attributes / thread objects of the toolkit", len(locks) + len(threads), 2)
+    # what each thread's code locks
+    thread_locks = set()
+    for m, asg, tgt in threads:
+        if tgt is None:
+            continue
+        fake = _ast.Call(func=tgt, args=[], keywords=[])
+        for k in reach([fake], m.name):
+            for w in _ast.walk(funcs[k][1]):
+                if isinstance(w, _ast.With):
+                    for it in w.items:
+                        a_ = lock_attr(it.context_expr)
+                        if a_ in locks:
+                            thread_locks.add(a_)
+                elif isinstance(w, _ast.Call) and isinstance(w.func, _ast.Attribute) and w.func.attr == "acquire" \
+                        and lock_attr(w.func.value) in locks:
+                    thread_locks.add(lock_attr(w.func.value))
+    thread_attrs = {t.attr for m, asg, tgt in threads for t in asg.targets if isinstance(t, _ast.Attribute)}
+
+    def joins(fd):
+        for c in _ast.walk(fd):
+            if isinstance(c, _ast.Call) and isinstance(c.func, _ast.Attribute) and c.func.attr == "join" \
+                    and isinstance(c.func.value, _ast.Attribute) and c.func.value.attr in thread_attrs:
+                yield c
+    n_regions = 0
+    for m in repo.tk_modules():
+        for w in _ast.walk(m.tree):
+            if not isinstance(w, _ast.With):
+                continue
+            held = {lock_attr(it.context_expr) for it in w.items} & locks
+            if not held:
+                continue
+            n_regions += 1
+            body = _ast.Module(body=w.body, type_ignores=[])
+            found = [("%s: %s" % (qualname(c), canon(c))) for c in joins(body)]
+            for k in reach([body], m.name):
+                found += ["%s.%s: %s" % (k[1], k[2], canon(c)) for c in joins(funcs[k][1])]
+            bad = sorted(set(found)) if held & thread_locks else []
+            L.ob(rule, m.rel, qualname(w), "no thread that takes `%s` is joined while it is held (`with %s` region)" % (
+                 "/".join(sorted(held)), canon(w.items[0].context_expr)), "no reachable join()", bad, not bad, w.lineno)
+    L.floor(rule, "lock regions of the toolkit", n_regions, 3)
+    L.extra["%s_thread_locks" % rule] = sorted(thread_locks)
